@@ -231,6 +231,13 @@ Theorem C01_law_child_reference : forall H ver c,
 Proof. exact law_child_reference. Qed.
 Print Assumptions C01_law_child_reference.
 
+(* A third-party state-version-1 node (round 4): Example v1_third_party_leaf in ProofsEnc.v — the
+   hashed-value leaf of a live relay-chain storage proof quoted in pkg/trie/inmemory/proof/proof_test.go is
+   reproduced byte for byte by enc from its partial key and its 188-byte value (and not under V0). *)
+Example C01_v1_third_party_leaf :
+  enc blake2b_256 V1 (Leaf (key_le_to_nibbles tp_leaf_key) tp_value) = tp_leaf_node.
+Proof. exact (proj1 (proj2 v1_third_party_leaf)). Qed.
+
 (* layout of the two node kinds *)
 Theorem C01_law_node_layout : forall H ver pk,
   (forall v, enc H ver (Leaf pk v) =
